@@ -444,7 +444,9 @@ struct RegexEval {
 /// by the user (the restore pass of escape_misused_repetition_quantifier). A change of meaning of any other
 /// expression is a different violation and gets a class of its own.
 fn cleanup_class(base: &str, text: &str) -> String {
-    let known_root_cause = text.matches(']').count() >= 2 || text.contains("<<<<");
+    // (the restore pass also bites when a `<` of the user's stands directly in front of a protected quantifier:
+    // `<{1}` is protected as `<<<<<1>>>>`, in which the first four `<` are taken for the opening of the placeholder)
+    let known_root_cause = text.matches(']').count() >= 2 || text.contains("<<<<") || text.contains("<{") || text.contains("}>");
     if known_root_cause { base.to_string() } else { format!("{base}-elsewhere") }
 }
 
@@ -843,7 +845,16 @@ pub fn run(ctx: &Ctx, prop: &str) {
     // repetition quantifiers as the regex crate reads them: a{X} and ba{X}c for every X over {1 2 ,} up to length 3
     // ({1} {1,2} {1,} are quantifiers; {,1} {2,1} {,} are not valid there and say nothing)
     let qs = words(&['1', '2', ','], 3);
-    ctx.run_stream("regex-quantifier-oracle-exhaustive", (qs.len() * 2) as u64, true, |idx| {
+    let angle_quant = ["<{1}", "a<{2}", "\\<{1}", "\\\\<{1}", "a{1}>"];
+    ctx.run_stream("regex-quantifier-oracle-exhaustive", (qs.len() * 2 + angle_quant.len()) as u64, true, |idx| {
+        if idx as usize >= qs.len() * 2 {
+            // a literal `<` / `>` next to a quantifier: the placeholder of the restore pass collides with it (open finding)
+            let text = angle_quant[idx as usize - qs.len() * 2].to_string();
+            let lines: Vec<Vec<u8>> = ["<", "<<", "a<", "a<<", "a", "a>", ""].iter().map(|l| l.as_bytes().to_vec()).collect();
+            let hexlines: Vec<String> = lines.iter().map(|l| hex(l)).collect();
+            let op = format!("oracle-only rx {} {}", hex(text.as_bytes()), hexlines.join(","));
+            return Some(regex_oracle_only(prop, &dmk, op, &text, &lines));
+        }
         let q = &qs[(idx / 2) as usize];
         let (pre, suf) = if idx % 2 == 0 { ("", "") } else { ("b", "c") };
         let text = format!("{pre}a{{{q}}}{suf}");
